@@ -125,6 +125,7 @@ func (w *World) call(n *node, kind string, in *pb.Message, f func()) bool {
 		return false
 	}
 	post := n.rn.VerifState()
+	w.checkHeldMessages(n, kind)
 	var created []*pb.Message
 	if kind == "ready" {
 		n.outNow, n.outAfter = n.outNow[:0], n.outAfter[:0]
@@ -950,6 +951,7 @@ func (w *World) doReadySync(n *node) {
 		w.inconclusive("sync Ready at node %d carries %d messages, %d tracked", n.id, len(rd.Messages), len(out))
 		n.rdMetas = nil
 	}
+	w.holdMessages(n, rd.Messages)
 	w.onReady(n, &rd, rd.HardState, rd.Entries, rd.Snapshot, rd.CommittedEntries)
 	w.Stats["readys-sync"]++
 }
@@ -1016,6 +1018,7 @@ func (w *World) doReadyAsync(n *node) {
 		return
 	}
 	w.logf("ready(async) %d: %d msgs", n.id, len(rd.Messages))
+	w.holdMessages(n, rd.Messages)
 	w.Stats["readys-async"]++
 	var hs *pb.HardState
 	var ents []*pb.Entry
@@ -1221,4 +1224,47 @@ func (w *World) compactRange(n *node) (uint64, uint64) {
 	lo := d.SnapIndex
 	hi := min(d.DurApplied, li, n.st.Applied, hs.GetCommit(), n.appIndex)
 	return lo, hi
+}
+
+// holdMessages / checkHeldMessages: an application may keep Ready.Messages until its
+// transport has sent them (Ready's contract: the slice is the application's until the
+// next Ready is handed out). The harness keeps the slice of the latest Ready and
+// verifies after every later call into the node that neither the slice's elements nor
+// the messages they point to were changed by the library.
+func (w *World) holdMessages(n *node, msgs []*pb.Message) {
+	n.heldMsgs = msgs
+	n.heldPtrs = append([]*pb.Message(nil), msgs...)
+	n.heldBytes = n.heldBytes[:0]
+	for _, m := range msgs {
+		b, err := proto.MarshalOptions{Deterministic: true}.Marshal(m)
+		must(err)
+		n.heldBytes = append(n.heldBytes, b)
+	}
+	w.Stats["ready-message-slices-held"]++
+}
+
+func (w *World) checkHeldMessages(n *node, kind string) {
+	if kind == "ready" {
+		return // the caller replaces the held slice right after this call
+	}
+	for i, m := range n.heldMsgs {
+		if m != n.heldPtrs[i] {
+			w.violate("C20", []string{"C03", "C19"}, "node %d: slot %d of the Messages slice of the last Ready was overwritten by the library during %s (was %s, is %s)", n.id, i, raft.DescribeMessage(n.heldPtrs[i], nil), raft.DescribeMessage(m, nil), kind)
+			n.heldMsgs, n.heldPtrs = nil, nil
+			return
+		}
+	}
+	w.Stats["held-message-slice-checks"]++
+	if w.clock%16 != 0 {
+		return
+	}
+	for i, m := range n.heldMsgs {
+		b, err := proto.MarshalOptions{Deterministic: true}.Marshal(m)
+		must(err)
+		if !bytes.Equal(b, n.heldBytes[i]) {
+			w.violate("C20", []string{"C03", "C19"}, "node %d: message %d of the last Ready (%s) was modified by the library during %s", n.id, i, raft.DescribeMessage(m, nil), kind)
+			n.heldMsgs, n.heldPtrs = nil, nil
+			return
+		}
+	}
 }
